@@ -26,6 +26,7 @@ BUILD = VERIF / "build" / _key
 COQ = VERIF / "coq"
 NCPU = os.cpu_count() or 4
 SEED = int(os.environ.get("VERIF_SEED", "1"))
+COQC_FILE_TIMEOUT = 1200     # seconds per .v file
 
 SAN_FLAGS = ["-std=gnu11", "-O1", "-g", "-fno-omit-frame-pointer",
              "-fsanitize=address,undefined", "-fno-sanitize-recover=all", "-fopenmp",
@@ -202,7 +203,8 @@ def coq_make(targets, timeout=3000):
     with Lock(COQ / ".lock"):
         coq_project()
     # make itself runs unlocked so that a long proof build of one property does not block the others
-    p = sh(["timeout", str(timeout), "make", "-k", "-j", str(NCPU)] + list(targets), cwd=COQ)
+    # every coqc runs under its own time limit: one looping file cannot stall the whole build
+    p = sh(["timeout", str(timeout), "make", "-k", "-j", str(NCPU), "COQC=timeout %d coqc" % COQC_FILE_TIMEOUT] + list(targets), cwd=COQ)
     return p.returncode == 0, p.stdout + p.stderr
 
 
@@ -430,7 +432,7 @@ def gen_translators():
                     q = (gen / n).with_suffix(suf)
                     if q.exists():
                         q.unlink()
-            sh(["timeout", "600", "make", "-k", "-j", str(NCPU)] + ["theories/Gen/" + n + "o" for n in changed], cwd=COQ)
+            sh(["timeout", "600", "make", "-k", "-j", str(NCPU), "COQC=timeout %d coqc" % COQC_FILE_TIMEOUT] + ["theories/Gen/" + n + "o" for n in changed], cwd=COQ)
     return summary
 
 
